@@ -1,6 +1,7 @@
 import Proofs.C07.Laws
 import Proofs.C07.Versions
 import Proofs.C07.DerPath
+import Proofs.E2E.C07
 /-!
 # C07 — BIP32 derivation obeys the BIP's equations and its algebraic laws
 
@@ -252,5 +253,94 @@ example : Gen.Bip32.pubVersion [4, 136, 173, 228] = some [4, 136, 178, 30] := by
 example : (∀ i ∈ [0, 1, 2 ^ 31 - 1], i < HARDENED) ∧ (2 ^ 31 : Nat) ≥ HARDENED := by decide
 example : DerPath.indexesFromStr "m/44h/0'/1H/0".toList = .ok [2147483692, 2147483648, 2147483649, 0] := by decide
 example : DerPath.strFromIndexes [2147483692, 0] ['h'] = .ok "m/44h/0".toList := by decide
+
+end Props.C07
+
+/-! ## End to end: the same theorems about `Btc.EC.ops C`, no `Lawful` hypothesis
+
+`L : Lawful E.o G` above is discharged by C01's capstone `Btc.C01.lawful_ec`, for every curve with `CurveOk p C` and
+`p ≡ 3 (mod 4)` (proofs: Proofs/E2E/C07.lean).  `ecEnv C D` is the environment the driver runs (`secpEnv mac =
+ecEnv secp256k1 (secpData mac)` by `rfl`); `subEnv K D` is the same with `opsSub K` for `Btc.EC.ops C` (the same
+operations on the underlying pairs, `lift_x` answering inside the `n`-torsion).  Private derivation and neutering over
+`subEnv K D` ARE their runs over `ecEnv C D`; what a public derivation answers over `subEnv K D` it answers over
+`ecEnv C D`.  T3 is given as the full equation over `subEnv K D` and, in its success case, about `Btc.EC.ops C` alone.
+(T2 `deriveFold_compose` and T5 `crack_recovers_parent` never had a `Lawful` hypothesis: they already apply to
+`secpEnv`.)  For secp256k1 the only hypotheses are the primality of `p` and of `n`. -/
+namespace Props.C07
+open Btc Btc.EC Btc.C01 Btc.E2E Btc.Bip32
+
+/-- T3 over `subEnv K D`, any curve: the full equation, refusals included -/
+theorem neuter_derive_ec {p : ℕ} [Fact p.Prime] {C : Curve} (K : CurveOk p C) (D : EnvData) (h34 : p % 4 = 3)
+    (B : Bounds (ecEnv C D)) (x : XKey) (v : Bytes) (path : List ℕ)
+    (hv : ValidPrv (ecEnv C D) x) (hver : D.pubVersion x.version = some v) (hp : ∀ i ∈ path, i < HARDENED) :
+    ((deriveFold (subEnv K D) x path).mapError Err.toPub).bind (neuter (subEnv K D)) =
+      (neuter (subEnv K D) x).bind fun x' => deriveFold (subEnv K D) x' path :=
+  Btc.E2E.neuter_derive_ec K D h34 B x v path hv hver hp
+
+/-- T3 on btclib's arithmetic, any curve (success case): if deriving privately along an unhardened path and neutering
+    the result answers `y'`, then neutering the parent answers and its public derivation over `Btc.EC.ops C` is `y'` -/
+theorem neuter_derive_raw_ec {p : ℕ} [Fact p.Prime] {C : Curve} (K : CurveOk p C) (D : EnvData) (h34 : p % 4 = 3)
+    (B : Bounds (ecEnv C D)) (x : XKey) (v : Bytes) (path : List ℕ)
+    (hv : ValidPrv (ecEnv C D) x) (hver : D.pubVersion x.version = some v) (hp : ∀ i ∈ path, i < HARDENED)
+    (y' : XKey) (hy : (deriveFold (ecEnv C D) x path).bind (neuter (ecEnv C D)) = .ok y') :
+    neuter (ecEnv C D) x = .ok { x with version := v, key := pubOfPrv (ecEnv C D) x.prvInt } ∧
+    deriveFold (ecEnv C D) { x with version := v, key := pubOfPrv (ecEnv C D) x.prvInt } path = .ok y' :=
+  Btc.E2E.neuter_derive_raw_ec K D h34 B x v path hv hver hp y' hy
+
+/-- T1 over `subEnv K D`, any curve: `_derive` is the fold of BIP steps, public keys included -/
+theorem deriveB_eq_fold_ec {p : ℕ} [Fact p.Prime] {C : Curve} (K : CurveOk p C) (D : EnvData) (h34 : p % 4 = 3)
+    (B : Bounds (ecEnv C D)) (x : XKey) (path : List ℕ)
+    (hk : x.isPrivate = true ∨ ∀ i ∈ path, i < HARDENED) (hd : x.depth + path.length ≤ MAX_DEPTH) :
+    deriveB (subEnv K D) x path none = deriveFold (subEnv K D) x path :=
+  Btc.E2E.deriveB_eq_fold_ec K D h34 B x path hk hd
+
+/-- private derivation over `subEnv K D` IS private derivation over `ecEnv C D`; what any derivation answers over
+    `subEnv K D` it answers over `ecEnv C D` -/
+theorem deriveFold_sub_ec {p : ℕ} [Fact p.Prime] {C : Curve} (K : CurveOk p C) (D : EnvData) (x : XKey)
+    (path : List ℕ) :
+    (x.isPrivate = true → deriveFold (subEnv K D) x path = deriveFold (ecEnv C D) x path) ∧
+    (∀ y, deriveFold (subEnv K D) x path = .ok y → deriveFold (ecEnv C D) x path = .ok y) :=
+  ⟨fun h => deriveFold_sub_private K D path h, fun _ h => deriveFold_sub_ok K D path h⟩
+
+/-- T5 on btclib's arithmetic, any curve (no group law needed) -/
+theorem crack_recovers_parent_ec (C : Curve) (D : EnvData) (B : Bounds (ecEnv C D)) (x y : XKey) (v : Bytes)
+    (i : ℕ) (hv : ValidPrv (ecEnv C D) x) (hi : i < HARDENED) (hc : ckdPriv (ecEnv C D) x i = .ok y) :
+    crackCore (ecEnv C D) { x with version := v, key := pubOfPrv (ecEnv C D) x.prvInt } y = .ok x :=
+  Btc.E2E.crack_recovers_parent_ec C D B x y v i hv hi hc
+
+/-- T3 on secp256k1 (the driver's `secpEnv mac`), full equation over `secpSubEnv`: ONLY primality assumed -/
+theorem neuter_derive_secp256k1 (hp : Nat.Prime secp256k1_p) (hn : Nat.Prime secp256k1_n)
+    (mac : Bytes → Bytes → Bytes) (x : XKey) (v : Bytes) (path : List ℕ)
+    (hv : ValidPrv (secpEnv mac) x) (hver : Gen.Bip32.pubVersion x.version = some v)
+    (hpath : ∀ i ∈ path, i < HARDENED) :
+    ((deriveFold (secpSubEnv hp hn mac) x path).mapError Err.toPub).bind (neuter (secpSubEnv hp hn mac)) =
+      (neuter (secpSubEnv hp hn mac) x).bind fun x' => deriveFold (secpSubEnv hp hn mac) x' path :=
+  Btc.E2E.neuter_derive_secp256k1 hp hn mac x v path hv hver hpath
+
+/-- T3 on secp256k1, success case, about the driver's `secpEnv mac` itself -/
+theorem neuter_derive_raw_secp256k1 (hp : Nat.Prime secp256k1_p) (hn : Nat.Prime secp256k1_n)
+    (mac : Bytes → Bytes → Bytes) (x : XKey) (v : Bytes) (path : List ℕ)
+    (hv : ValidPrv (secpEnv mac) x) (hver : Gen.Bip32.pubVersion x.version = some v)
+    (hpath : ∀ i ∈ path, i < HARDENED)
+    (y' : XKey) (hy : (deriveFold (secpEnv mac) x path).bind (neuter (secpEnv mac)) = .ok y') :
+    neuter (secpEnv mac) x = .ok { x with version := v, key := pubOfPrv (secpEnv mac) x.prvInt } ∧
+    deriveFold (secpEnv mac) { x with version := v, key := pubOfPrv (secpEnv mac) x.prvInt } path = .ok y' :=
+  Btc.E2E.neuter_derive_raw_secp256k1 hp hn mac x v path hv hver hpath y' hy
+
+/-- T1 on secp256k1 -/
+theorem deriveB_eq_fold_secp256k1 (hp : Nat.Prime secp256k1_p) (hn : Nat.Prime secp256k1_n)
+    (mac : Bytes → Bytes → Bytes) (x : XKey) (path : List ℕ)
+    (hk : x.isPrivate = true ∨ ∀ i ∈ path, i < HARDENED) (hd : x.depth + path.length ≤ MAX_DEPTH) :
+    deriveB (secpSubEnv hp hn mac) x path none = deriveFold (secpSubEnv hp hn mac) x path :=
+  Btc.E2E.deriveB_eq_fold_secp256k1 hp hn mac x path hk hd
+
+-- non-vacuity on `y² = x³ + 7` over `F₄₃` (`CurveOk` PROVED, nothing assumed): an actual private derivation along
+-- `0/7` followed by neutering, and what T3 then says of the public derivation of the neutered parent
+example : (deriveFold (ecEnv toyC toyData) toyX [0, 7]).bind (neuter (ecEnv toyC toyData)) = .ok toyY' :=
+  toy_derive_neuter
+example : deriveFold (ecEnv toyC toyData)
+    { toyX with version := [5, 137, 174, 229], key := pubOfPrv (ecEnv toyC toyData) toyX.prvInt } [0, 7] = .ok toyY' :=
+  (neuter_derive_raw_ec toyOk toyData (by decide) toy_bounds toyX [5, 137, 174, 229] [0, 7] toy_validPrv
+    (by decide) (by decide) toyY' toy_derive_neuter).2
 
 end Props.C07
